@@ -3,3 +3,14 @@ import CssVerif.Props.C02
 #print axioms CssVerif.C02.layout_independent
 #print axioms CssVerif.C02.comments_removed
 #print axioms CssVerif.C02.statement_boundary
+#print axioms CssVerif.C02.engine_total
+#print axioms CssVerif.C02.engine_progress
+#print axioms CssVerif.C02.media_query_total
+#print axioms CssVerif.C02.media_list_total
+#print axioms CssVerif.C02.synthetic_total
+#print axioms CssVerif.C02.spin_is_real
+#print axioms CssVerif.C02.media_query_language
+#print axioms CssVerif.C02.media_query_documented
+#print axioms CssVerif.C02.media_query_beyond_documented
+#print axioms CssVerif.C02.media_list_language
+#print axioms CssVerif.C02.media_list_comment_dependent
